@@ -89,7 +89,11 @@ package reorgdetector
 //@   modifies nothing
 //@   ensures[a-new-list] result != nil && fresh(result) && result.headers != nil && fresh(result.headers)
 //@   ensures[empty-when-given-nothing] len(headers) == 0 ==> forall(n, int, !has(result.headers, n))
-//@   loop 0 invariant headersMap != nil && fresh(headersMap) && (len(headers) == 0 ==> forall(n, int, !has(headersMap, n)))
+//@   ensures[holds-exactly-the-given-block-numbers] forall(n, int, has(result.headers, n) == exists(k, 0, len(headers), headers[k].Num == n))
+//@   ensures[each-header-under-its-own-number] forall(k, 0, len(headers), forall(j, k + 1, len(headers), headers[j].Num != headers[k].Num) ==> result.headers[headers[k].Num] == headers[k])
+//@   loop 0 invariant headersMap != nil && fresh(headersMap) && (len(headers) == 0 ==> forall(n, int, !has(headersMap, n))) && 0 <= rangeindex + 1 && rangeindex + 1 <= len(headers)
+//@   loop 0 invariant forall(n, int, has(headersMap, n) == exists(k, 0, rangeindex + 1, headers[k].Num == n))
+//@   loop 0 invariant forall(k, 0, rangeindex + 1, forall(j, k + 1, rangeindex + 1, headers[j].Num != headers[k].Num) ==> headersMap[headers[k].Num] == headers[k])
 //@ func (rd *ReorgDetector) Subscribe
 //@   props C06
 //@   requires rd != nil && rd.subscriptions != nil && rd.trackedBlocks != nil
